@@ -356,7 +356,10 @@ def run(chk):
         "normalize_slashes and is_filename_sane every byte loaded from the argument is only compared for (in)equality "
         "with '/', '.', NUL or copied within the same buffer, so the functions' behaviour on all strings is "
         "determined by their behaviour over the three-letter alphabet {'/','.',other}. The input/output relation "
-        "itself (exactly-when '..', idempotence, never grows) is value-level and not decided.")
+        "itself (exactly-when '..', idempotence, never grows) is value-level and not decided. In the tar iterator every use "
+        "of the member name (pattern matching included) lies behind the accepting edge of canonicalize_name, on feasible "
+        "paths; the unpack side (rdsquashfs): tree walks gate their own node's name, image-derived paths come from "
+        "get_path + canonicalize_name (the rules of C06, looking through copies and hand-filled buffers).")
     chk.assumptions = [
                        "value-level relation of canonicalize_name (rejects exactly '..' components, idempotent) is not decided"]
     progs = {t: load_program(t) for t in ("gensquashfs", "tar2sqfs", "rdsquashfs", "sqfs2tar", "sqfsdiff")}
